@@ -15,7 +15,11 @@
 (*   - images are centred: the action on pixels is  y = g.(x - c) + c'     *)
 (*     with c = (dims-1)/2; doubled coordinates keep half-integers exact.  *)
 (***************************************************************************)
-EXTENDS Integers, Sequences, FiniteSets
+EXTENDS Integers, Sequences, FiniteSets, TLC
+
+(* TLC builds function constructors lazily and re-evaluates their body at every application; value arrays that are read many
+   times are therefore forced once.  Semantically Eager(v) = v. *)
+Eager(v) == TLCEval(v)
 
 RECURSIVE ProdSeq(_), SumSeq(_)
 ProdSeq(s) == IF s = <<>> THEN 1 ELSE Head(s) * ProdSeq(Tail(s))
